@@ -1,7 +1,7 @@
 //! C14 driver: runs the real `ConfirmSmoother` (public API only) on generated
 //! histories of raw confirmations and records what it produced.
-use crate::args::Args;
-use crate::trace::Shards;
+use vh::args::Args;
+use vh::trace::Shards;
 use amiquip::{Confirm, ConfirmPayload, ConfirmSmoother};
 use rand::rngs::StdRng;
 use rand::{Rng, SeedableRng};
